@@ -231,8 +231,16 @@ def c12md5_run(tid, wcfg, cfgline, seed):
     rec = R.Recorder(w, tid, cfgline)
     # in a third of the runs the operator is faster than the start-up call: manual start first, the start-up call arrives
     # some time later (whatever state the peering is in by then)
-    late_boot = rnd.random() < 0.35
+    late_boot = rnd.random() < 0.35 or bool(wcfg.get('late_boot'))
     rec.step({'k': 'start' if late_boot else 'boot', 'c': 0}, 0)
+    if wcfg.get('late_boot'):
+        # scripted opening: the attempt of the manual start is accepted (the configured fault hits this connection), the peer
+        # stays silent, and only then the start-up call arrives
+        pend = [i for i in w.alive if W.connectors[i - 1].state == 'connecting']
+        if pend:
+            rec.step({'k': 'connOk', 'c': pend[0]}, pend[0])
+        if w.can({'k': 'boot'}):
+            rec.step({'k': 'boot', 'c': 0}, 0)
     for _ in range(rnd.randint(15, 45)):
         if late_boot and w.can({'k': 'boot'}) and rnd.random() < 0.25:
             rec.step({'k': 'boot', 'c': 0}, 0)
@@ -398,6 +406,12 @@ def c12md5_jobs(tier, seed):
             wcfg = dict(tick=10.0, crt=(20, 30, 40)[j % 3], idle=20, hold=90, las=65001, ras=65002, **f)
             jobs.append(('c12md5', wcfg, seed * 1000003 + n))
             n += 1
+    for f in (dict(handler_fail={'send_open': [1]}), dict(nodelay_fail=[1]), dict()):
+        for crt in (20, 30):
+            for _ in range(2 if tier == 'quick' else 40):
+                wcfg = dict(tick=10.0, crt=crt, idle=20, hold=90, las=65001, ras=65002, late_boot=True, **f)
+                jobs.append(('c12md5', wcfg, seed * 1000003 + n))
+                n += 1
     for fail in ([1], [2], [1, 2], [1, 3, 5], 'all', []):
         for crt in (20, 40):
             for _ in range(25 if tier == 'quick' else 600):
